@@ -34,6 +34,7 @@ RULE = (
     "value with an option-syntax character, or a mixed convertible / non-convertible fragment, or >= 2 filtered tags; "
     "distinct by case."
 )
+RULE += (' Class tokens are separated by any HTML white space (spaces, tab, line break).')
 ASSUMPTIONS = [
     "GFM mode is driven through create_md_parser(gfm config) with the linkify rule disabled (linkify-it-py is not "
     "importable), as the property's observation note prescribes",
@@ -221,6 +222,20 @@ def attr_html(v):
     return v.replace("&", "&amp;").replace('"', "&quot;")
 
 
+# documents parsed earlier in the same process, which end inside an HTML construct: the conversion of a later <img> /
+# <div class="admonition"> does not depend on them
+EARLIER = ["para <style> unclosed inline\n", "<script>\nunclosed block\n", "text <di\n\n<div class=\"admonition\">\nunclosed\n",
+           "x &am\n\n<!-- open\n", "<textarea>\n"]
+
+
+def _parse_earlier(case, settings):
+    if case.get("earlier") is not None:
+        try:
+            front.docutils_parse(case["earlier"], settings=settings)
+        except Exception:  # noqa: BLE001  (crashes are C01's business)
+            pass
+
+
 @st.composite
 def img_case(draw):
     src = draw(st.sampled_from(["a.png", "dir/b.svg", "https://e.org/i.gif", "a b.png", "é.png", "x?y=1&z=2"]))
@@ -232,7 +247,7 @@ def img_case(draw):
         else:
             attrs.append([k, draw(st.sampled_from(VALUE_POOL))])
     return {"src": src, "attrs": attrs, "inline": draw(st.booleans()), "selfclose": draw(st.booleans()),
-            "src_first": draw(st.booleans())}
+            "src_first": draw(st.booleans()), "earlier": draw(st.sampled_from([None, None] + EARLIER))}
 
 
 def build_img(case):
@@ -260,6 +275,7 @@ def check_img(acc, case) -> list[dict]:
     t_html = ("lead " + tag + " tail\n") if case["inline"] else (tag + "\n")
     t_dir = directive + "\n"
     st_ = {"myst_enable_extensions": ["html_image", "html_admonition"]}
+    _parse_earlier(case, st_)
     try:
         d1, w1 = front.docutils_parse(t_html, settings=st_)
         d2, w2 = front.docutils_parse(t_dir, settings=st_)
@@ -300,7 +316,9 @@ def sub_img_each(acc, shard, nshards, tier, seed):
                 i += 1
                 if i % nshards != shard:
                     continue
-                _record(acc, check_img(acc, {"src": "a.png", "attrs": [[k, v]], "inline": inline, "selfclose": False, "src_first": True}))
+                for earlier in (None, EARLIER[i % len(EARLIER)]):
+                    _record(acc, check_img(acc, {"src": "a.png", "attrs": [[k, v]], "inline": inline, "selfclose": False,
+                                                 "src_first": True, "earlier": earlier}))
     acc.exhaustive = True
 
 
@@ -324,7 +342,8 @@ def adm_case(draw):
     body = []
     for _ in range(draw(st.integers(1, 3))):
         body.append([draw(st.sampled_from(["p", "text"])), draw(st.sampled_from(MD_TEXT))])
-    return {"classes": classes, "name": name, "title": title, "title_tag": title_tag, "title_class": title_class, "body": body}
+    return {"classes": classes, "name": name, "title": title, "title_tag": title_tag, "title_class": title_class, "body": body,
+            "earlier": draw(st.sampled_from([None, None] + EARLIER))}
 
 
 def build_adm(case):
@@ -355,6 +374,7 @@ def check_adm(acc, case) -> list[dict]:
     # bare text lines that follow each other without a <p> are one paragraph in HTML source but were generated as separate
     # paragraphs for the directive: keep at most one bare-text item and put it last, so both spellings agree by construction
     st_ = {"myst_enable_extensions": ["html_image", "html_admonition"]}
+    _parse_earlier(case, st_)
     try:
         d1, w1 = front.docutils_parse(h + "\n", settings=st_)
         d2, w2 = front.docutils_parse(d + "\n", settings=st_)
@@ -443,7 +463,11 @@ def gfm_case(draw):
         text = "<div>\n" + body.replace("\n\n", "\n") + "\n</div>\n"
     else:
         text = "para " + body.replace("\n", " ") + " end\n"
-    return {"text": text}
+    return {"text": text, "exts": draw(st.sampled_from(GFM_EXTS))}
+
+
+# the tag filter applies whatever HTML extension is enabled next to it (they only convert <img> / div.admonition)
+GFM_EXTS = [[], [], ["html_image"], ["html_admonition"], ["html_image", "html_admonition"]]
 
 
 def check_gfm(acc, case) -> list[dict]:
@@ -455,7 +479,8 @@ def check_gfm(acc, case) -> list[dict]:
     mk = (acc or Acc(PROPERTY, "replay")).violation
     text = case["text"]
     try:
-        doc, warn = front.gfm_parse(text)
+        exts = list(case.get("exts") or [])
+        doc, warn = front.gfm_parse(text, extra_cfg={"enable_extensions": exts} if exts else None)
         md = front.gfm_markdown_it(MdParserConfig(gfm_only=True), RendererHTML)
         toks = []
         for tok in md.parse(text):
@@ -469,7 +494,8 @@ def check_gfm(acc, case) -> list[dict]:
     got = [r.astext() for r in doc.findall(nodes.raw) if r.get("format") == "html"]
     exp = [model_filter(t) for t in toks]
     vs = []
-    if got != exp:
+    convertible = exts and any("<img" in t.lower() or "admonition" in t for t in toks)
+    if got != exp and not convertible:
         vs.append(mk("C17:gfm-filter-differs-from-model", case, exp[:4], got[:4]))
     for g in got:
         p = _Tags()
@@ -506,8 +532,10 @@ def sub_gfm_each(acc, shard, nshards, tier, seed):
                     if i % nshards != shard:
                         continue
                     tag = "<" + close + nm + f + (">" if f not in (">", "") else "")
-                    _record(acc, check_gfm(acc, {"text": "<div>\nbefore " + tag.replace("\n", " \n") + " after\n</div>\n"}))
-                    _record(acc, check_gfm(acc, {"text": "para <b>x</b> " + tag.replace("\n", " ").replace("\r", " ").replace("\f", " ") + " end\n"}))
+                    exts = GFM_EXTS[1:][i % 4]
+                    _record(acc, check_gfm(acc, {"text": "<div>\nbefore " + tag.replace("\n", " \n") + " after\n</div>\n", "exts": exts}))
+                    _record(acc, check_gfm(acc, {"text": "para <b>x</b> " + tag.replace("\n", " ").replace("\r", " ").replace("\f", " ") + " end\n",
+                                                 "exts": exts}))
     acc.exhaustive = True
 
 
